@@ -812,6 +812,14 @@ void HyperedgeImprover::execute(bool canMakeMajorChanges)
             continue;
         }
 
+        if (connRef->displayRoute().size() < 2)
+        {
+            // No path (e.g. only one endpoint has been set so far), so
+            // this connector contributes no edges to a hyperedge tree.
+            ++connRefIt;
+            continue;
+        }
+
         bool seenFront = (m_hyperedge_tree_junctions.find(jFront) !=
                 m_hyperedge_tree_junctions.end());
         bool seenBack = (m_hyperedge_tree_junctions.find(jBack) !=
